@@ -42,7 +42,28 @@ struct ctx {
 };
 
 #define R(...) do { if (c->render) vp_render(c->rep, __VA_ARGS__); } while (0)
-#define FAIL(key, ...) do { if (!c->ret) c->ret = vp_fail(c->rep, key, __VA_ARGS__); } while (0)
+/* Compiled three times: for C16 (routing of sections), with -DC16_AS=4 for C04 (announcements and flow definition of the
+ * pipe and its sub-pipes: only keys "C04/...") and with -DC16_AS=1 for C01 (destroyed exactly once, nothing left: "C01/..."). */
+#ifndef C16_AS
+#define C16_AS 16
+#endif
+#if C16_AS == 4
+#define EXEC_PID "C04"
+#define KEY_ON(key) (!strncmp(key, "C04/", 4))
+#elif C16_AS == 1
+#define EXEC_PID "C01"
+#define KEY_ON(key) (!strncmp(key, "C01/", 4))
+#else
+#define EXEC_PID "C16"
+#define KEY_ON(key) (!strncmp(key, "C16/", 4))
+#endif
+#define FAIL(key, ...) do { if (!c->ret && KEY_ON(key)) c->ret = vp_fail(c->rep, key, __VA_ARGS__); } while (0)
+/* protocol facts recorded by a probe of the fixture */
+#define PROTO(pr, what, idx) do { \
+    if ((pr).first_nonlog_not_ready) FAIL("C04/ready/first", "%s %d threw another event before READY", what, idx); \
+    if ((pr).n_dead > 1) FAIL("C04/dead/count", "%s %d threw DEAD %u times", what, idx, (pr).n_dead); \
+    if ((pr).n_after_dead) FAIL("C04/dead/last", "%s %d threw %u event(s) after DEAD (first: event %d)", what, idx, (pr).n_after_dead, (pr).first_after_dead); \
+} while (0)
 #define CLS(x) (c->classes |= 1u << (x))
 
 static struct uref *input_flow_def(struct ctx *c, uint8_t a)
@@ -243,14 +264,20 @@ out:
     if (c->join) upipe_release(c->join);
     for (int i = 0; i < c->nin; i++)
         if (!c->ret && c->in[i].used && c->in[i].probe.n_ready && c->in[i].probe.n_dead != 1)
-            FAIL("C16/leak/join", "input %d was released but threw dead %u times", i, c->in[i].probe.n_dead);
+            FAIL("C01/audit/join", "input %d was released but threw dead %u times", i, c->in[i].probe.n_dead);
     if (!c->ret && c->probe.n_ready && c->probe.n_dead != 1)
-        FAIL("C16/leak/join", "every reference was released but the joiner threw dead %u times", c->probe.n_dead);
+        FAIL("C01/audit/join", "every reference was released but the joiner threw dead %u times", c->probe.n_dead);
+    for (int i = 0; i < c->nin; i++) if (c->in[i].used) PROTO(c->in[i].probe, "input sub-pipe", i);
+    PROTO(c->probe, "the joiner", 0);
+    for (int k = 0; k < 2; k++) {
+        /* the joiner has one output, replaced by set_output: each newly connected sink gets the definition before data */
+        if (c->sink[k].data_before_flow_def) FAIL("C04/flowdef/missing", "sink %d received a buffer before any flow definition", k);
+    }
     c16_sink_clean(&c->sink[0]);
     c16_sink_clean(&c->sink[1]);
     for (int i = 0; i < c->nin; i++) for (int k = 0; k < c->in[i].nsent; k++) free(c->in[i].sent[k].b);
     const char *leak = fix_mem_clean(&c->fm);
-    if (leak && !c->ret) c->ret = vp_fail(rep, "C16/leak/join", "%s", leak);
+    if (leak) FAIL("C01/audit/join", "%s", leak);
 
     rep->case_hash = c->hash;
     rep->classes = c->classes;
@@ -258,4 +285,4 @@ out:
     return c->ret;
 }
 
-const struct vp_executor vp_executor = { "C16", "join", 96, class_names, run, NULL };
+const struct vp_executor vp_executor = { EXEC_PID, "join", 96, class_names, run, NULL };
